@@ -19,6 +19,30 @@ static void init(void) {
 
 static void set_mask(unsigned m) { if (m != g_mask) { pv_api_enable_features(m); g_mask = m; } }
 
+/* "identical seed" includes what the decoded seed does next: it is encoded again (same and other coin, same and other language)
+ * and that second-generation phrase must be the model's phrase for the original abstract seed and decode again */
+static pv_rng* g_rng2;
+static bool second_generation(polyseed_data* a, const pv_mseed* m, pv_mlang* L, unsigned coin, const char* how, const char* via) {
+    bool ok = true;
+    for (int k = 0; k < 2; ++k) {
+        pv_mlang* L2 = L; unsigned c2 = coin;
+        if (k == 1) { do { L2 = &pv_langs[pv_randn(g_rng2, (uint32_t)pv_nlangs)]; } while (!L2->lib); c2 = pv_randn(g_rng2, 2) ? coin : pv_gen_coin(g_rng2); }
+        char* out2 = malloc(POLYSEED_STR_SIZE);
+        size_t n2 = pv_api_encode(a, L2->lib, c2, out2);
+        PV_COUNT("evaluations", 1);
+        char want[2048]; size_t wn = pv_m_encode(m, L2, c2, want, sizeof want);
+        if (strcmp(want, out2) || n2 != wn) { ok = false; pv_violation("C01/decoded-seed-encodes-differently", "[%s, decoded by %s from %s coin %u] re-encoded in %s for coin %u: '%s' vs model '%s'", how, via, L->name_en, coin, L2->name_en, c2, pv_esc(out2), pv_esc(want)); }
+        else {
+            polyseed_data* b = NULL; int st = pv_api_decode_explicit(out2, c2, L2->lib, &b);
+            PV_COUNT("evaluations", 1);
+            if (st != POLYSEED_OK) { ok = false; pv_violation("C01/second-generation-phrase-does-not-decode", "[%s] %s coin %u -> %s coin %u: %s", how, L->name_en, coin, L2->name_en, c2, pv_status_name(st)); }
+            else { const char* mm = pv_seed_mismatch(b, m, c2); if (mm) { ok = false; pv_violation("C01/second-generation-seed-differs", "[%s] %s", how, mm); } pv_api_free(b); PV_COUNT("second_generation.ok", 1); }
+        }
+        free(out2);
+    }
+    return ok;
+}
+
 /* one full round trip of library seed s (abstract value m) */
 static void roundtrip(polyseed_data* s, const pv_mseed* m, pv_mlang* L, unsigned coin, const char* how) {
     size_t n = pv_api_encode(s, L->lib, coin, g_out);
@@ -33,13 +57,14 @@ static void roundtrip(polyseed_data* s, const pv_mseed* m, pv_mlang* L, unsigned
     if (st != POLYSEED_OK) { pv_violation("C01/explicit-decode-fails", "[%s] %s coin %u mask %u seed %s: decode_explicit('%s') -> %s", how, L->name_en, coin, g_mask, pv_mseed_str(m), pv_esc(in), pv_status_name(st)); free(in); return; }
     const char* mm = pv_seed_mismatch(a, m, coin);
     if (mm) pv_violation("C01/explicit-decode-differs", "[%s] %s coin %u seed %s: %s", how, L->name_en, coin, pv_mseed_str(m), mm);
+    bool sg_ok = mm ? true : second_generation(a, m, L, coin, how, "decode_explicit");
     pv_api_free(a);
     /* automatic */
     pv_mdecode md; pv_m_decode(in, coin, NULL, g_mask, &md);
     a = NULL; const polyseed_lang* lo = NULL;
     st = pv_api_decode(in, coin, &lo, &a);
     PV_COUNT("evaluations", 1);
-    bool ok = !mm;
+    bool ok = !mm && sg_ok;
     if (md.status == POLYSEED_ERR_MULT_LANG) {
         PV_COUNT("auto.model_says_ambiguous", 1);
         if (st != POLYSEED_ERR_MULT_LANG) { ok = false; pv_violation("C01/auto-guesses-on-ambiguous-phrase", "[%s] %s: every word of '%s' exists in another list but decode -> %s", how, L->name_en, pv_esc(in), pv_status_name(st)); }
@@ -50,6 +75,7 @@ static void roundtrip(polyseed_data* s, const pv_mseed* m, pv_mlang* L, unsigned
             if (lo != L->lib) { ok = false; pv_violation("C01/auto-wrong-language", "[%s] %s: detected '%s'", how, L->name_en, lo ? polyseed_get_lang_name_en(lo) : "(null)"); }
             const char* m2 = pv_seed_mismatch(a, m, coin);
             if (m2) { ok = false; pv_violation("C01/auto-decode-differs", "[%s] %s coin %u: %s", how, L->name_en, coin, m2); }
+            else if (!second_generation(a, m, L, coin, how, "decode")) ok = false;
             PV_COUNT("auto.ok", 1);
         }
     } else { ok = false; pv_violation("C01/model-rejects-own-phrase", "model decode of '%s' -> %s (harness or library phrase problem)", pv_esc(in), pv_status_name(md.status)); }
@@ -61,6 +87,7 @@ static void roundtrip(polyseed_data* s, const pv_mseed* m, pv_mlang* L, unsigned
 /* ---------------------------------------------------------------- main workload */
 static uint64_t n_round(void) { return pv_scaled(40000, 700000); }
 static void run_round(uint64_t idx, pv_rng* rng) {
+    g_rng2 = rng;
     unsigned mask = (unsigned)(idx % 8);
     set_mask(mask);
     pv_mseed m; pv_gen_mseed(rng, mask, true, &m);
@@ -104,6 +131,7 @@ static uint64_t n_ambig(void) { return (uint64_t)pv_nlangs * (uint64_t)pv_nlangs
 static void run_ambig(uint64_t idx, pv_rng* rng) {
     int a = (int)(idx % (uint64_t)pv_nlangs), b = (int)((idx / (uint64_t)pv_nlangs) % (uint64_t)pv_nlangs);
     if (a == b || !pv_langs[a].lib || !pv_langs[b].lib) return;
+    g_rng2 = rng;
     set_mask(7);
     int ov = pv_overlap(a, b, NULL);
     pv_maxf((uint64_t)ov, "overlap.%s.in.%s", pv_langs[a].key, pv_langs[b].key);
@@ -121,6 +149,7 @@ static void run_ambig(uint64_t idx, pv_rng* rng) {
 /* ---------------------------------------------------------------- every coin for a few seeds, every birthday, every feature value */
 static uint64_t n_axes(void) { return 2048 + 1024 + 32; }
 static void run_axes(uint64_t idx, pv_rng* rng) {
+    g_rng2 = rng;
     set_mask(7);
     pv_mseed m; pv_gen_mseed(rng, 7, true, &m);
     unsigned coin = pv_gen_coin(rng);
